@@ -37,6 +37,13 @@ Theorem C07_locker_blocked_by_a_holder : forall (threads : nat) (schedule : list
   exists t', t' <> t /\ in_cs s t' n = true.
 Proof. intros threads schedule t n a s. apply blocked_by_a_holder. apply LInv_run. apply LInv_init. Qed.
 
+(* ... and gets past the inner mutex only when nobody is inside the critical section of that name: internal/locker behaves as the
+   abstract mutex (a holder field with Lock enabled when it is empty) that Model/AtomicRMW.v assumes *)
+Theorem C07_locker_acquire_only_when_free : forall (threads : nat) (schedule : list lstep_op) (t : tid) (n : name) (a : addr),
+  let s := lk_run (lk_init threads) schedule in
+  pc_of s t = Waiting n a -> snd (lk_step s (Acquire t)) = Done -> forall t', in_cs s t' n = false.
+Proof. intros threads schedule t n a s. apply acquire_only_when_free. apply LInv_run. apply LInv_init. Qed.
+
 (* the invariant itself, step by step (what a change to the locker has to keep) *)
 Theorem C07_locker_invariant : forall s o, LInv s -> LInv (fst (lk_step s o)).
 Proof. exact LInv_step. Qed.
